@@ -24,6 +24,10 @@
                   __CPROVER_is_fresh((s)->stack.data, MAXN * sizeof(pair_ulong_VTMF_CardSecret)))
 #define SSI(ss, i) ((ss)->stack.data[(i)].first)           /* i-th index of a stack secret */
 #define SSR(ss, i) V((ss)->stack.data[(i)].second.r)       /* i-th masking exponent */
+/* ghost state of the stack-level contracts (never assigned by any code) */
+size_t ghost_i;            /* arbitrary position */
+long ghost_e1, ghost_e2;   /* names of the two masked components at position ghost_i (tied by an ENFORCE requires) */
+size_t ghost_pos[MAXN];    /* Skolem function of find_position: position at which an index occurs */
 #define C1(s, i) V((s)->stack.data[(i)].c_1)
 #define C2(s, i) V((s)->stack.data[(i)].c_2)
 #endif
